@@ -681,6 +681,32 @@ def run(tier):
                 chk.violation('%s:control-flow' % name, rec,
                               '%s[%s] in build %s: %d distinct instruction traces over the secret alphabet (outcome %s) -- %s; tuples %s'
                               % (name, shs, cfg, len(ks), o, r.get('div', ''), r.get('div_tuples')))
+    # SAFE == FAST on the operand patterns of the arithmetic catalogue (C05's cross product: multiples of the modulus, all-ones words under
+    # carries, words equal to mod[0], ...): both editions are judged against the exact formula there; an edition pair of which exactly one
+    # member deviates is a SAFE != FAST violation here
+    if not only:
+        import C05, C07, c05_calls as CC
+        pair_fns = set(n for n in names if n in CC.CAT and CC.CAT[n].fast)
+        CC.CFGS[:] = ['rel']
+        if tier == 'quick':
+            C05.NMAX = dict(C05.NMAX, quick=6)
+        C05.prepare(tier)
+        col = C07._Collector()
+        C05.catalogue(col, tier, pair_fns)
+        bykey = {}
+        for key, rec2, msg in col.viol:
+            fn, cls = key.split(':', 1)
+            base = fn[:-5] if fn.endswith('_fast') else fn
+            if cls.split('/')[0] in ('value', 'return', 'relation') and base in pair_fns:
+                bykey.setdefault(base, {}).setdefault(fn, (key, rec2, msg))
+        for base, eds in sorted(bykey.items()):
+            if len(eds) == 1:
+                fn, (key, rec2, msg) = list(eds.items())[0]
+                chk.violation('%s:safe!=fast(catalogue)' % base, dict(rec2, via='C05'), 'SAFE != FAST for %s: the %s edition deviates from the formula, the other one does not -- %s' % (
+                    base, 'fast' if fn.endswith('_fast') else 'regular', msg))
+        pc = col.parts.get('catalogue_calls', {})
+        chk.part('safe_fast_pairs_on_catalogue_patterns', states=int(pc.get('cells', 0)), transitions=int(pc.get('evaluations', 0)),
+                 traces_validated_against_impl=int(pc.get('evaluations', 0)), evaluations=int(pc.get('evaluations', 0)), functions=len(pair_fns))
     chk.part('safe_fast_pairs_and_traces', states=groups, transitions=ncalls, traces_validated_against_impl=ncalls, evaluations=ncalls,
              distinct_nontrivial=groups, single_steps=nsteps, pairs=len(names), routines={k: v for k, v in sorted(per.items())})
     chk.sample({'pairs': names})
@@ -694,6 +720,9 @@ def run(tier):
                       '|{instruction trace of the SAFE edition over the secret alphabet}| == 1')
 
 def replay(rec):
+    if rec.get('via') == 'C05':
+        import C05
+        return C05.replay({k: v for k, v in rec.items() if k != 'via'})
     if rec.get('kind') == 'undescribed':
         return None if rec['name'] not in pairs_from_headers() or rec['name'] in ROUT else 'pair %s still undescribed' % rec['name']
     sh = {k: (int(v) if isinstance(v, str) and v.isdigit() else v) for k, v in rec['shape'].items()}
